@@ -182,14 +182,37 @@ impl From<flac_codec::Error> for CbErr {
 }
 
 pub fn run_c10(ctx: &mut Ctx) -> R {
+    run_c10_with(ctx, false)
+}
+
+/// the same histories on a file whose first padding block is within a few bytes of the 24-bit block
+/// size limit, with edits that shrink the other blocks: the freed bytes do not fit into the padding
+pub fn run_c10_big(ctx: &mut Ctx) -> R {
+    run_c10_with(ctx, true)
+}
+
+fn run_c10_with(ctx: &mut Ctx, big: bool) -> R {
     let ch = ctx.ch.clone();
     let mut cfg = draw_cfg(&ch, true);
     cfg.block = 16 + ch.draw("c10.block", 32) as u16;
     cfg.offset = 0;
     cfg.padding = *ch.pick("c10.pad", &[Some(100u32), None, Some(8), Some(4096), Some(30), Some(9000)]);
+    if big {
+        cfg.padding = Some((1u32 << 24) - 1 - ch.draw("c10.big.below", 13) as u32);
+        cfg.tags = 0;
+        cfg.seek = crate::genr::SeekPolicy::Off;
+        probe("c10_padding_near_24bit_limit");
+    }
     let frames = 10 + ch.draw("c10.n", 60) as usize;
     let pcm = draw_pcm(&ch, cfg.channels, cfg.bps, frames);
-    let mut extra = genmeta::draw_blocks(&ch, 3, false);
+    let mut extra = if big {
+        // a comment and an application block in front of the padding, both of which can shrink
+        let mut vc = VorbisComment { vendor_string: "v".into(), fields: Vec::new() };
+        vc.fields.push(format!("COMMENT={}", "c".repeat(ch.draw("c10.big.comment", 40) as usize)));
+        vec![Block::from(vc), Block::from(Application { id: 0x74657374, data: vec![1; ch.draw("c10.big.app", 30) as usize] })]
+    } else {
+        genmeta::draw_blocks(&ch, 3, false)
+    };
     // several padding blocks
     for _ in 0..ch.draw("c10.morepad", 3) {
         extra.push(
@@ -239,11 +262,23 @@ pub fn run_c10(ctx: &mut Ctx) -> R {
     };
     let frame_bytes = start_bytes[meta0.audio_start..].to_vec();
     ctx.describe(|| format!("{} frames={} file={}B metadata={}B blocks={:?}", cfg.describe(), frames, start_bytes.len(), meta0.audio_start, meta0.blocks.iter().map(|b| (b.kind, b.len)).collect::<Vec<_>>()));
-    let ben = Benign::draw(&ch);
+    let ben = if big { Benign::none() } else { Benign::draw(&ch) };
     let mut cur_file = ctx.disk.create(start_bytes.clone());
-    let steps = 1 + ch.draw("c10.steps", 12);
+    let steps = 1 + ch.draw("c10.steps", if big { 3 } else { 12 });
     for step in 0..steps {
-        let edit = draw_edit(&ch);
+        let edit = if big {
+            match ch.draw("edit.big.kind", 8) {
+                0 | 1 => Edit::CommentSet(ch.draw("edit.big.n", 24) as usize),
+                2 => Edit::CommentRemove,
+                3 => Edit::DropApplications,
+                4 => Edit::AddApplication(ch.draw("edit.big.app", 16) as usize),
+                5 => Edit::CommentFit(ch.draw("edit.fit.d", 17) as i64 - 8),
+                6 => Edit::PaddingResize((1u32 << 24) - 1 - ch.draw("edit.big.pad", 6) as u32),
+                _ => Edit::Nothing,
+            }
+        } else {
+            draw_edit(&ch)
+        };
         let before = ctx.disk.data(cur_file);
         let rebuilt_file = ctx.disk.create(Vec::new());
         let captured: RefCell<Option<Vec<Block>>> = RefCell::new(None);
